@@ -18,6 +18,9 @@ RULE = ('complete: every property of the generated request schema (208) x {name 
         'non-trivial = every compared entry; distinct by (table, name)')
 
 
+import os
+
+
 def close(a, b):
     if a is None and b is None:
         return True
@@ -68,6 +71,19 @@ def relations(chk: core.Check, d):
     # 4. result fields extractable
     for f in d['result_fields_not_in_parser']:
         chk.fail(f'C19/result-field-not-extractable/{f}', f"result schema names '{f}' but the client has no such field to extract", {'field': f})
+    # 4b. … and from a *report*: a field the writers could print on the pinned tree (its label is a static label of Outputs*.py or a parameter
+    #     Name / display_name) must still be printable — a renamed label leaves the schema naming a field no report can contain
+    import json as _json
+    base = _json.loads((core.VERIF / 'harness' / 'data' / 'printable_result_fields.json').read_text())['fields']
+    _t, lab = extract.labels_table()
+    labels = set(lab['labels'])
+    for f in base:
+        if f in d.get('committed_result_fields', []):
+            chk.case(('printable', f), True)
+            if f not in labels:
+                chk.fail(f'C19/result-field-never-printed/{f}', f"the result schema names '{f}', the client looks for that label, but no report writer prints a line labelled so any more",
+                         {'field': f, 'was_printable_at': 'pinned tree (harness/data/printable_result_fields.json)'})
+    chk.coverage['printable_result_fields_checked'] = len([f for f in base if f in d.get('committed_result_fields', [])])
     # 5. accepted names missing from the schema
     for n, w in d['missing_from_schema'].items():
         chk.case(('accepted', n), True)
@@ -144,6 +160,89 @@ def enforcement(chk: core.Check, d):
                                  (f'accepts {v!r}' if got else f'rejects {v!r}'), {'name': p.Name, 'probe': tag, 'value': repr(v), 'schema_min': s['min'], 'schema_max': s['max']})
 
 
+HISTORY = r'''
+import contextlib, io, json, logging, os, sys, tempfile
+logging.disable(logging.CRITICAL)
+from geophires_x_schema_generator import GeophiresXSchemaGenerator
+from geophires_x_client import GeophiresXClient, GeophiresInputParameters
+import geophires_x_schema_generator as G
+from pathlib import Path
+
+def gen():
+    with contextlib.redirect_stdout(io.StringIO()):
+        req, res = GeophiresXSchemaGenerator().generate_json_schema()
+    return req
+
+def canon(x):
+    return json.dumps(x, sort_keys=True, default=str)
+
+committed = json.loads((Path(G.__file__).parent / 'geophires-request.json').read_text())
+out = {'steps': []}
+first = gen()
+out['steps'].append({'step': 'generate (fresh process)', 'differs': sorted(k for k in committed['properties'] if canon(committed['properties'][k]) != canon(first['properties'].get(k)))})
+base = {'Reservoir Model': 4, 'Drawdown Parameter': 0.005, 'Reservoir Depth': 3, 'Maximum Temperature': 400, 'Number of Production Wells': 2,
+        'Number of Injection Wells': 2, 'Production Flow Rate per Well': 55, 'End-Use Option': 2, 'Power Plant Type': 9, 'Plant Lifetime': 10,
+        'Time steps per year': 1, 'Print Output to Console': 0}
+def run(extra):
+    with contextlib.redirect_stdout(io.StringIO()), contextlib.redirect_stderr(io.StringIO()):
+        r = GeophiresXClient(enable_caching=False).get_geophires_result(GeophiresInputParameters({**base, **extra}))
+    return r.result['RESERVOIR PARAMETERS'].get('Bottom-hole temperature', {}).get('value')
+bht_rich = run({'Number of Segments': 3, 'Gradient 1': 70, 'Thickness 1': 1.0, 'Gradient 2': 40, 'Thickness 2': 1.0, 'Gradient 3': 30,
+                'Surface Temperature': 17, 'Reservoir Heat Capacity': 1050, 'Reservoir Density': 2650, 'Utilization Factor': 0.85})
+second = gen()
+out['steps'].append({'step': 'generate again after a 3-segment run in the same process',
+                     'differs': sorted(k for k in committed['properties'] if canon(committed['properties'][k]) != canon(second['properties'].get(k)))})
+out['bht_after_history'] = run({})
+print('HISTORY-RESULT ' + json.dumps(out))
+'''
+
+SPARSE = r'''
+import contextlib, io, json, logging
+logging.disable(logging.CRITICAL)
+from geophires_x_client import GeophiresXClient, GeophiresInputParameters
+base = {'Reservoir Model': 4, 'Drawdown Parameter': 0.005, 'Reservoir Depth': 3, 'Maximum Temperature': 400, 'Number of Production Wells': 2,
+        'Number of Injection Wells': 2, 'Production Flow Rate per Well': 55, 'End-Use Option': 2, 'Power Plant Type': 9, 'Plant Lifetime': 10,
+        'Time steps per year': 1, 'Print Output to Console': 0}
+with contextlib.redirect_stdout(io.StringIO()), contextlib.redirect_stderr(io.StringIO()):
+    r = GeophiresXClient(enable_caching=False).get_geophires_result(GeophiresInputParameters(base))
+print('SPARSE-RESULT ' + json.dumps(r.result['RESERVOIR PARAMETERS'].get('Bottom-hole temperature', {}).get('value')))
+'''
+
+
+def history(chk: core.Check):
+    """the published schema must not depend on what the process did before: generate, run a case that states many parameters, generate again
+    (each compared with the committed file); then a run that states almost nothing must use the published defaults — the same answer as in a
+    fresh process"""
+    import json
+    import subprocess
+    env = dict(os.environ)
+    env['PYTHONPATH'] = str(core.SRC) + os.pathsep + env.get('PYTHONPATH', '')
+
+    def sub(code, marker):
+        p = subprocess.run([core.PY, '-c', code], capture_output=True, text=True, env=env, cwd=str(chk.scratch), timeout=900)
+        for ln in p.stdout.splitlines():
+            if ln.startswith(marker):
+                return json.loads(ln[len(marker):]), p
+        return None, p
+
+    h, p1 = sub(HISTORY, 'HISTORY-RESULT ')
+    f, p2 = sub(SPARSE, 'SPARSE-RESULT ')
+    if h is None or f is None:
+        chk.notes.append('schema history could not be run: ' + ((p1.stderr if h is None else p2.stderr) or '')[-300:])
+        chk.tag('history/not-run')
+        return
+    for st in h['steps']:
+        chk.case(('history', st['step']), True)
+        chk.tag('history/' + ('equal' if not st['differs'] else 'differs'))
+        for n in st['differs'][:5]:
+            chk.fail(f'C19/committed-differs/request-after-history/{n}', f"generated request schema differs from the committed one at '{n}' ({st['step']})",
+                     {'name': n, 'step': st['step']})
+    chk.case(('history', 'defaults-after-history'), True)
+    if h['bht_after_history'] != f:
+        chk.fail('C19/default-not-used-after-history', f'a run that leaves the gradients at their published defaults reports bottom-hole temperature {h["bht_after_history"]} '
+                 f'after an earlier 3-segment run in the same process, {f} in a fresh process', {'after_history': h['bht_after_history'], 'fresh_process': f})
+
+
 def run(chk: core.Check) -> int:
     from tools import extract
     ext = extract.main(['Schema'])
@@ -152,6 +251,7 @@ def run(chk: core.Check) -> int:
     clean = chk.prove(['GeoVerif.Properties.C19'])
     relations(chk, ext['Schema']['data'])
     enforcement(chk, ext['Schema']['data'])
+    history(chk)
     chk.assumptions += ['"what the simulator enforces" = the live Parameter objects\' Min / Max / AllowableRange / DefaultValue / CurrentUnits (enforcement itself is C07)',
                         'names not defined identically in all sources declaring them are listed under coverage.not_identically_defined, as the property exempts them']
     chk.trusted += ['tools/extract.py (interning of strings, canonical JSON text per schema property)']
